@@ -1,15 +1,16 @@
 (** XRef/Model.v — executable models of the cross-reference reader of pdf-rs:
     pdf/src/xref.rs (XRef, XRefTable, XRefSection), pdf/src/parser/parse_xref.rs (both section
     readers), pdf/src/backend.rs (header / startxref location, ranges) and the part of
-    pdf/src/parser/lexer/mod.rs they use (next_word, peek, Substr::to).
+    pdf/src/parser/lexer/mod.rs they use (Lexer::next, peek — the shared model PdfV.Lex.Lexer — and
+    Substr::to::<uN>).
     Every definition names its Rust anchor; constants come from Gen.Generated (i.e. from the
     Rust source as it is now).  No proofs in this file. *)
 From PdfV Require Import Base.Prelude Gen.Generated.
+From PdfV Require Export Lex.Lexer.     (* the shared lexer model: lx, next, peek, bytes_eqb, is_digit, E_EOF *)
 
 Definition usize_max : N := 18446744073709551616.   (* 2^64: usize / u64 on the verified target *)
 
 (* error kinds (coarse; compared by tag only) *)
-Definition E_EOF : N := 2.
 Definition E_OTHER : N := 3.
 Definition E_UNSPEC : N := 8.      (* PdfError::UnspecifiedXRefEntry *)
 Definition E_BOUNDS : N := 9.      (* PdfError::ContentReadPastBoundary *)
@@ -183,102 +184,9 @@ Definition parse_xref_stream_sections (index width : list N) (data : bytes) (all
   if N.even (lenN index) then stream_sections index width data allow else Err E_OTHER.
 
 (* ------------------------------------------------------------------ *)
-(** * lexer/mod.rs — the part used by the table reader and by locate_xref_offset.
-    A lexer state is the not yet consumed suffix of the buffer (the consumed length is tracked by
-    the callers that need it). *)
-
-(* lexer/mod.rs: is_whitespace / Lexer::is_delimiter *)
-Definition is_ws (b : N) : bool := memN b lex_ws.            (* table from gen/extract_syn.py *)
-Definition is_delim (b : N) : bool := memN b lex_delims.
-Definition is_regular (b : N) : bool := negb (is_ws b) && negb (is_delim b).
-
-(* lexer/mod.rs: boundary(buf, pos, is_whitespace) *)
-Fixpoint skip_ws (l : bytes) : bytes :=
-  match l with
-  | c :: r => if is_ws c then skip_ws r else l
-  | [] => []
-  end.
-
-(* lexer/mod.rs: skip_whitespace — EOF when nothing but white-space is left *)
-Definition skip_whitespace (l : bytes) : res bytes :=
-  match skip_ws l with
-  | [] => Err E_EOF
-  | r => Ok r
-  end.
-
-(* buf[pos..].iter().position(|b| b == '\n' || b == '\r') : the suffix after the first end-of-line byte *)
-Fixpoint after_nl (l : bytes) : option bytes :=
-  match l with
-  | c :: r => if memN c lex_comment_ends then Some r else after_nl r
-  | [] => None
-  end.
-
-(* lexer/mod.rs: next_word — `while self.buf.get(pos) == Some(&b'%')`.  Without an end-of-line the
-   comment runs to the end of the buffer. *)
-Fixpoint skip_comments (fuel : nat) (l : bytes) : res bytes :=
-  match fuel with
-  | O => OutOfFuel
-  | S f =>
-      match l with
-      | c :: r =>
-          if c =? lex_comment then
-            do l' <- skip_whitespace (match after_nl r with Some r' => r' | None => [] end);
-            skip_comments f l'
-          else Ok l
-      | [] => Ok l
-      end
-  end.
-
-(* the loop `while !is_whitespace(pos) && !is_delimiter(pos) { advance }` *)
-Fixpoint span_regular (l : bytes) : bytes * bytes :=
-  match l with
-  | c :: r => if is_regular c then let (a, b) := span_regular r in (c :: a, b) else ([], l)
-  | [] => ([], [])
-  end.
-
-Fixpoint bytes_eqb (a b : bytes) : bool :=
-  match a, b with
-  | [], [] => true
-  | x :: a', y :: b' => (x =? y) && bytes_eqb a' b'
-  | _, _ => false
-  end.
-
-(* lexer/mod.rs: next_word — returns the lexeme and the suffix after it *)
-Definition next_word (l : bytes) : res (bytes * bytes) :=
-  match l with
-  | [] => Err E_EOF                                   (* self.pos == self.buf.len() *)
-  | _ =>
-      do l1 <- skip_whitespace l;
-      do l2 <- skip_comments (S (length l1)) l1;
-      match l2 with
-      | [] => Err E_EOF
-      | c :: r =>
-          if is_delim c then
-            if c =? 47 then
-              let (a, b) := span_regular r in Ok (c :: a, b)
-            else
-              match r with
-              | d :: r' => if existsb (bytes_eqb [c; d]) [[60; 60]; [62; 62]] then Ok ([c; d], r') else Ok ([c], r)
-              | [] => Ok ([c], r)
-              end
-          else
-            let (a, b) := span_regular l2 in Ok (a, b)
-      end
-  end.
-
-(* lexer/mod.rs: Lexer::next *)
-Definition lex_next (l : bytes) : res (bytes * bytes) := next_word l.
-
-(* lexer/mod.rs: Lexer::peek — EOF gives the empty lexeme *)
-Definition lex_peek (l : bytes) : res bytes :=
-  match next_word l with
-  | Ok (w, _) => Ok w
-  | Err e => if e =? E_EOF then Ok [] else Err e
-  | Panic s => Panic s
-  | OutOfFuel => OutOfFuel
-  end.
-
-Definition is_digit (b : N) : bool := (48 <=? b) && (b <=? 57).
+(** * lexer/mod.rs — the table reader and locate_xref_offset use the shared lexer model
+    (PdfV.Lex.Lexer: state [lx] = absolute position + not yet consumed suffix; [next], [peek]), so the
+    lexer theorems of Lex/LexProofs.v apply to them directly. *)
 
 (* lexer/mod.rs: Substr::to::<uN> = str::parse::<uN>: optional '+', at least one digit, no overflow *)
 Definition parse_uint (bits : N) (tok : bytes) : res N :=
@@ -295,46 +203,52 @@ Definition parse_uint (bits : N) (tok : bytes) : res N :=
 
 (* parse_xref.rs: parse_xref_table_and_trailer — `for i in 0..num_ids`; every iteration consumes
    input, fuel = remaining bytes *)
-Fixpoint table_entries (fuel : nat) (cnt : N) (l : bytes) (acc : list xref) : res (list xref * bytes) :=
-  if cnt =? 0 then Ok (rev acc, l) else
+Fixpoint table_entries (fuel : nat) (cnt : N) (s : lx) (acc : list xref) : res (list xref * lx) :=
+  if cnt =? 0 then Ok (rev acc, s) else
   match fuel with
   | O => OutOfFuel
   | S f =>
-      do (w1, l1) <- lex_next l;
+      do (w1, s1) <- next s;
       if bytes_eqb w1 xr_kw_trailer then Err E_OTHER else
-      do (w2, l2) <- lex_next l1;
-      do (w3, l3) <- lex_next l2;
+      do (w2, s2) <- next s1;
+      do (w3, s3) <- next s2;
       if bytes_eqb w3 xr_kw_f then
         do a <- parse_uint xr_bits_free_next w1;
         do g <- parse_uint xr_bits_free_gen w2;
-        table_entries f (cnt - 1) l3 (XFree a g :: acc)
+        table_entries f (cnt - 1) s3 (XFree a g :: acc)
       else if bytes_eqb w3 xr_kw_n then
         do a <- parse_uint xr_bits_pos w1;
         do g <- parse_uint xr_bits_gen w2;
-        table_entries f (cnt - 1) l3 (XRaw a g :: acc)
+        table_entries f (cnt - 1) s3 (XRaw a g :: acc)
       else Err E_OTHER
   end.
 
 (* parse_xref.rs: parse_xref_table_and_trailer — `while lexer.peek()? != "trailer"`, then
-   next_expect("trailer"); returns the sections and the suffix after the keyword *)
-Fixpoint table_sections (fuel : nat) (l : bytes) (acc : list section) : res (list section * bytes) :=
+   next_expect("trailer"); returns the sections and the lexer state after the keyword *)
+Fixpoint table_sections (fuel : nat) (s : lx) (acc : list section) : res (list section * lx) :=
   match fuel with
   | O => OutOfFuel
   | S f =>
-      do p <- lex_peek l;
+      do p <- peek s;
       if bytes_eqb p xr_kw_trailer then
-        do (_, l') <- lex_next l;
-        Ok (rev acc, l')
+        do (_, s') <- next s;
+        Ok (rev acc, s')
       else
-        do (ws, l1) <- lex_next l;
+        do (ws, s1) <- next s;
         do start <- parse_uint xr_bits_first ws;
-        do (wn, l2) <- lex_next l1;
+        do (wn, s2) <- next s1;
         do num <- parse_uint xr_bits_count wn;
-        do (es, l3) <- table_entries (S (length l2)) num l2 [];
-        table_sections f l3 ({| first_id := start; entries := es |} :: acc)
+        do (es, s3) <- table_entries (S (length (lrest s2))) num s2 [];
+        table_sections f s3 ({| first_id := start; entries := es |} :: acc)
   end.
-Definition parse_xref_table (l : bytes) : res (list section * bytes) :=
-  table_sections (S (length l)) l [].
+Definition parse_xref_table (s : lx) : res (list section * lx) :=
+  table_sections (S (length (lrest s))) s [].
+
+(* parse_xref.rs: read_xref_and_trailer_at — the classic branch: `lexer.next()? == "xref"`, then the
+   table; the other branch (cross-reference stream object) is the shared object parser, see XRef/AtProofs.v *)
+Definition read_xref_table_at (s : lx) : res (list section * lx) :=
+  do (w, s1) <- next s;
+  if bytes_eqb w xr_kw_xref then parse_xref_table s1 else Err E_OTHER.
 
 (* ------------------------------------------------------------------ *)
 (** * backend.rs *)
@@ -377,7 +291,8 @@ Definition locate_xref_offset (file : bytes) : res N :=
   let pos := lenN file - xr_from_end - 1 in
   match rfind_sub xr_startxref_kw (take pos file) with
   | Some i =>
-      do (w, _) <- lex_next (drop (i + lenN xr_startxref_kw) file);
+      let after := i + lenN xr_startxref_kw in
+      do (w, _) <- next (mkLx after (drop after file));
       parse_uint xr_startxref_bits w
   | None => Err E_NOTFOUND
   end.
@@ -462,9 +377,10 @@ Section Front.
     do (t, tid) <- read_xref_table_and_trailer (xref_at file) (lenN file) (S (length file)) start xoff;
     Ok (start, t, tid).
 
-  (* file.rs: resolve_ref (changes empty).  `self.start_offset + pos` is an unchecked addition.
-     The recursion through resolve.get::<ObjectStream> is cut by fuel (the implementation reports
-     "Recursive reference" there). *)
+  (* file.rs: resolve_ref (changes empty).  `self.start_offset.checked_add(pos)` — an offset that does
+     not fit behind the header position is reported like any other offset beyond the end of the file
+     (ContentReadPastBoundary).  The recursion through resolve.get::<ObjectStream> is cut by fuel (the
+     implementation reports "Recursive reference" there). *)
   Fixpoint resolve_ref (fuel : nat) (file : bytes) (start : N) (t : table) (id : N) : res value :=
     match fuel with
     | O => OutOfFuel
@@ -472,7 +388,7 @@ Section Front.
         do e <- table_get t id;
         match e with
         | XRaw pos _ =>
-            if usize_max <=? start + pos then Panic 204 else     (* attempt to add with overflow *)
+            if usize_max <=? start + pos then Err E_BOUNDS else  (* checked_add(..).ok_or(ContentReadPastBoundary) *)
             if lenN file <? start + pos then Err E_BOUNDS else
             obj_at file (start + pos)
         | XStream sid idx =>
